@@ -248,7 +248,11 @@ func genValidStack() *bspec {
 	b := genValidBase()
 	if rng.Intn(10) == 0 { // NoRetry-like stop delays flowing through layers: not constructible via NewFixed, use limit instead
 	}
-	for l := rng.Intn(4); l > 0; l-- {
+	depth := rng.Intn(4)
+	if rng.Intn(6) == 0 {
+		depth = 4 + rng.Intn(6) // deep stacks: more layers than the builder's initial capacity
+	}
+	for l := depth; l > 0; l-- {
 		if rng.Intn(2) == 0 {
 			ks := []int{1, 2, 3, 5, 64, 1025, 1 << 31, math.MaxInt64}
 			b = &bspec{kind: 'L', k: ks[rng.Intn(len(ks))], inner: b}
